@@ -238,6 +238,24 @@ def run_case(case, seed):
                 want = np.zeros(tuple(rows) + (1,) * d)
                 want[tuple(inds) + (0,) * d] = 1
                 chk_tt('unit', tt.unit(list(rows), [int(i) for i in inds]), want, [1] * (d + 1), 0)
+        # history: the arrays of an earlier result are edited in place (the idiom tests/test_ode.py uses on tt.zeros); a later
+        # constructor call must still return its defining tensor
+        ctors = [('eye', lambda: tt.eye(list(rows)), lambda T: mat(T), np.eye(int(np.prod(rows)))),
+                 ('ones', lambda: tt.ones(list(rows), list(cols)), dn, np.ones(a.shape)),
+                 ('zeros', lambda: tt.zeros(list(rows), list(cols)), dn, np.zeros(a.shape)),
+                 ('unit', lambda: tt.unit(list(rows), [0] * d), dn, None),
+                 ('uniform', lambda: tt.uniform(list(rows), ranks=1, norm=1), dn, None)]
+        for nm, mk_, dense_, want_ in ctors:
+            with r.op(K(nm + ':after-in-place-edit', 'call')):
+                first = mk_()
+                w0 = dense_(first).copy() if want_ is None else want_
+                for c_ in first.cores:
+                    c_ += 1.5
+                    c_[(0,) * 4] = -2.0
+                second = mk_()
+                if meta_problem(second) is None:
+                    r.close(K(nm + ':after-in-place-edit', 'value'), dense_(second), w0, 0)
+                r.true(K(nm + ':after-in-place-edit', 'distinct-object'), second is not first)
     # TT(array) round trip (exact for threshold 0 / unbounded rank)
     with r.op(K('from_array', 'call')):
         T = TT(np.array(a))
@@ -277,6 +295,34 @@ def run_case(case, seed):
                 r.close(kl('copy', 'value'), dn(A2.copy()), a, 0)
             with r.op(kl('mul', 'call')):
                 r.close(kl('mul', 'value'), dn(A2 * 2.0), 2.0 * a, TOL)
+    # overwrite variants: the object itself must afterwards denote the transposed / conjugated tensor; also when ONE array
+    # object is used for several cores (possible when all ranks are 1 and the modes are equal)
+    builds = [('', lambda: TT([np.array(c) for c in A.cores]))]
+    if d >= 2 and all(x == 1 for x in rA) and len(set(rows)) == 1 and len(set(cols)) == 1 and len({c.dtype for c in A.cores}) == 1:
+        c0 = A.cores[0]
+        same = dn(TT([np.array(c0) for _ in range(d)]))
+        builds.append((':same-core-object', lambda: TT([np.array(c0)] * d)))
+    for tag, mk in builds:
+        ref = a if tag == '' else same
+        full_T = np.transpose(ref, list(range(d, 2 * d)) + list(range(d)))
+        for nm, call, want in (('conj:overwrite', lambda T: T.conj(overwrite=True), np.conj(ref)),
+                               ('transpose:overwrite', lambda T: T.transpose(overwrite=True), full_T),
+                               ('transposeH:overwrite', lambda T: T.transpose(conjugate=True, overwrite=True), np.conj(full_T))):
+            with r.op(K(nm + tag, 'call')):
+                T = mk()
+                ret = call(T)
+                r.true(K(nm + tag, 'returns-self'), ret is T, 'overwrite=True must return the object itself')
+                if meta_problem(T) is None:
+                    r.close(K(nm + tag, 'value'), dn(T), want, TOL)
+                else:
+                    r.fail(K(nm + tag, 'meta'), str(meta_problem(T)))
+        if tag:
+            with r.op(K('conj' + tag, 'call')):
+                T = mk()
+                chk_tt('conj' + tag, T.conj(), np.conj(ref))
+                chk_tt('transpose' + tag, T.transpose(), full_T)
+                r.close(K('norm2' + tag, 'value'), T.norm(), np.linalg.norm(ref.ravel()), 1e-9)
+                r.close(K('same-core-object', 'unchanged'), dn(T), ref, 0)
     # operands untouched by everything above
     r.true(K('operands', 'unchanged'), unchanged(A, sA) and unchanged(B, sB), 'A or B modified by a value-level op')
     return r
